@@ -355,14 +355,16 @@ func (m *Model) runStmt(key string, idx int, sp *StmtProg, params []pgwire.Param
 	for oi, op := range sp.Ops {
 		switch op.K {
 		case "row":
-			res := "err"
-			if !closed && rowEncodable(sp.Cols, op.Row, rfmt) {
-				res = "ok"
-				written++
-				o.exp = append(o.exp, expDataRow(sp.Cols, rfmt, op.Row))
+			for n := 0; n == 0 || n < op.N; n++ {
+				res := "err"
+				if !closed && rowEncodable(sp.Cols, op.Row, rfmt) {
+					res = "ok"
+					written++
+					o.exp = append(o.exp, expDataRow(sp.Cols, rfmt, op.Row))
+				}
+				lastErr = res
+				o.ev = append(o.ev, fmt.Sprintf("op %d row %s", oi, res))
 			}
-			lastErr = res
-			o.ev = append(o.ev, fmt.Sprintf("op %d row %s", oi, res))
 		case "written":
 			o.ev = append(o.ev, fmt.Sprintf("op %d written %d", oi, written))
 		case "complete":
